@@ -357,6 +357,7 @@ def run(rep, tier, seed):
     for na, nb, budget in ([(3, 3, 200)] + ([(4, 3, 900), (4, 4, 1500)] if tier == "thorough" else [])):
         e2(rep, na, nb, budget)
     _standin(rep, tier, seed)
+    rep.assume("D25 legacy iteration protocol (grid landscapes are iterated through the real __getitem__), D26 np.interp as an abstract function of (x, xp, fp) passing through the data, D16 object arrays dispatch to the landscapes' operators (which enter through their proved contracts)")
     rep.assume("precondition wf(cp) for exact landscapes: abscissae strictly increasing, first and last ordinate 0 (the code treats the function as 0 left of the first point and constant right of the last)",
                "exact addition (the slope merge) is NOT proved for unbounded length: bounded-symbolic <=3+3 breakpoints (4+4 thorough) and sampled",
                "D15 np.pad zero padding, D16 object-array arithmetic dispatches to the operators, D13 np.interp")
